@@ -102,6 +102,95 @@ def handleGm (toks : List String) : String :=
     s!"ok x={fmtV s'.x} z={fmtV s'.z} resid2={fmtRat s'.resid2}"
   | _, _, _, _, _, _, _, _, _, _ => "err bad-op"
 
+/-! ### PDHG with every step-size branch and scalar or array steps (`C15.pdhgUpdateG` over C13's rational instance) -/
+
+def parseStep (s : String) : Option C13.RStep :=
+  match s.splitOn ":" with
+  | ["s", r] => (parseRat? r).map C13.RStep.sc
+  | ["a", l] => (parseRatList? l).map C13.RStep.ar
+  | _ => none
+
+def fmtStep : C13.RStep → String
+  | .sc r => "s:" ++ fmtRat r
+  | .ar l => "a:" ++ fmtRatList l
+
+def rowsOf (n : Nat) (flat : List Rat) : List (List Rat) :=
+  if n == 0 then [] else
+  let rec go (fuel : Nat) (l : List Rat) : List (List Rat) :=
+    match fuel with
+    | 0 => []
+    | f + 1 => if l.isEmpty then [] else l.take n :: go f (l.drop n)
+  go flat.length flat
+
+def parseProxK (s : String) : Option C13.ProxKind :=
+  match s.splitOn ":" with
+  | ["none"] => some .noop
+  | ["soft", l] => (parseRat? l).map fun lam => .l1 lam
+  | ["box", lo, hi] => do let l ← parseRat? lo; let h ← parseRat? hi; some (.box l h)
+  | _ => none
+
+/-- `norm(v / step**0.5)**2` on rational data -/
+def wnR (st : C13.RStep) (v : C13.RVec) : Rat := C13.sumSqDiv v.d (st.expand v.d.length)
+
+def handlePdhgG (toks : List String) : String :=
+  let getL (k : String) := (kv toks k).bind parseRatList?
+  match (kv toks "m").bind parseInt?, (kv toks "n").bind parseInt?, getL "A", getL "y",
+        (kv toks "tau").bind parseStep, (kv toks "sigma").bind parseStep, getR toks "gp", getR toks "gd",
+        getR toks "theta", getR toks "taumin", getR toks "sigmamin", getL "x", getL "u", getL "xext",
+        (kv toks "prox").bind parseProxK with
+  | some m, some n, some a, some y, some tau, some sigma, some gp, some gd, some th, some tmin, some smin,
+    some x, some u, some xe, some pg =>
+    let m := m.toNat; let n := n.toNat
+    if a.length ≠ m * n ∨ y.length ≠ m ∨ x.length ≠ n ∨ u.length ≠ m ∨ xe.length ≠ n then "err size" else
+    if tau.minAbs == 0 ∨ sigma.minAbs == 0 then "err zerodiv" else
+    let A := rowsOf n a
+    let AT := C13.transpose n A
+    let pfc : C13.ProxKind := .l2 1 (some (y.map (- ·)))
+    let s : C13.PDState Rat C13.RVec C13.RVec C13.RStep C13.RStep := ⟨⟨x⟩, ⟨u⟩, ⟨xe⟩, tau, sigma, tmin, smin⟩
+    let r := pdhgUpdateG C13.sqApprox wnR wnR (C13.matVec A) (C13.matVec AT) pfc.apply pg.apply gp gd th s
+    let s' := r.1
+    if s'.tau.minAbs == 0 ∨ s'.sigma.minAbs == 0 then "err zerodiv" else
+    s!"ok x={fmtRatList s'.x.d} u={fmtRatList s'.u.d} xext={fmtRatList s'.x_ext.d} tau={fmtStep s'.tau} sigma={fmtStep s'.sigma} taumin={fmtRat s'.tau_min} sigmamin={fmtRat s'.sigma_min} resid2={fmtRat r.2}"
+  | _, _, _, _, _, _, _, _, _, _, _, _, _, _, _ => "err bad-op"
+
+/-! ### NewtonsMethod with line search on `f(x) = Σ a_i x_i⁴/4 + q_i x_i²/2 - c_i x_i` -/
+
+def rdotV (a b : RVec) : Rat := (rzip (· * ·) a b).foldl (· + ·) 0
+
+def handleNewton (toks : List String) : String :=
+  match getRV toks "a", getRV toks "q", getRV toks "c", getRV toks "x", getR toks "beta",
+        (kv toks "fuel").bind parseInt? with
+  | some a, some q, some c, some x, some beta, some fuel =>
+    let n := x.size
+    if a.size ≠ n ∨ q.size ≠ n ∨ c.size ≠ n then "err size" else
+    let idx := Array.range n
+    let f : RVec → Rat := fun v => (idx.map fun i =>
+      let vi := v.getD i 0
+      a.getD i 0 * vi * vi * vi * vi / 4 + q.getD i 0 * vi * vi / 2 - c.getD i 0 * vi).foldl (· + ·) 0
+    let gradf : RVec → RVec := fun v => idx.map fun i =>
+      let vi := v.getD i 0
+      a.getD i 0 * vi * vi * vi + q.getD i 0 * vi - c.getD i 0
+    let hd : RVec → RVec := fun v => idx.map fun i => let vi := v.getD i 0; 3 * a.getD i 0 * vi * vi + q.getD i 0
+    if (hd x).any (· == 0) then "err zerodiv" else
+    let invH : RVec → RVec → RVec := fun v w => rzip (· / ·) w (hd v)
+    match newtonUpdateLS ratV rdotV gradf invH f beta fuel.toNat x with
+    | none => "err fuel"
+    | some (x', lam2, alpha) =>
+      -- margins of the loop tests that were evaluated (alpha = 1, beta, …, final alpha)
+      let g := gradf x
+      let p := ratV.smul (-1) (invH x g)
+      let fx := f x
+      let rec margins (k : Nat) (al : Rat) (best : Rat) : Rat :=
+        match k with
+        | 0 => best
+        | k + 1 =>
+          let d := ratAbs (f (ratV.add x (ratV.smul al p)) - (fx - al / 2 * lam2))
+          let best := if d < best then d else best
+          if al == alpha then best else margins k (al * beta) best
+      let mg := if beta < 1 then margins (fuel.toNat + 1) 1 1000000 else 1000000
+      s!"ok x={fmtV x'} lamda2={fmtRat lam2} alpha={fmtRat alpha} margin={fmtRat mg} resid={fmtRat (Gen.C15.newtonResid C13.sqApprox lam2)}"
+  | _, _, _, _, _, _ => "err bad-op"
+
 /-- protocol handler for property C15 (tokens after the property id). -/
 def handle (toks : List String) : String :=
   match toks.head? with
@@ -120,5 +209,7 @@ def handle (toks : List String) : String :=
     | _, _, _, _, _, _ => "err bad-op"
   | some "pdhg" => handlePdhg toks
   | some "gm" => handleGm toks
+  | some "pdhgG" => handlePdhgG toks
+  | some "newton" => handleNewton toks
   | _ => "err bad-op"
 end SigpyVerif.Drv.C15
